@@ -38,6 +38,11 @@ Class(line, bad, badsites) ==
    LET u == line.c.u IN
    IF line.load = "error" /\ bad = {"valid_document_loads"} /\ PointerBelowHeader(u) THEN "pointer_below_header_component"
    ELSE IF line.load # "ok" \/ badsites = <<>> THEN "none"
+   (* F-C02-6: what a FAILED load leaves behind in the Loader.  The document under way stays in the visited-documents cache      *)
+   (* (loadFromDataWithPathInternal enters it before resolving and never removes it), so loading the same location again hands    *)
+   (* out that half-resolved document as a success; and the in-progress reference set keeps the references that were open when    *)
+   (* the error struck, so ResolveRefsIn (which resets nothing on a used Loader) leaves those references unresolved.              *)
+   ELSE IF line.c.entry \in {"file_abs_retry", "resolvein_retry"} /\ \A i \in DOMAIN badsites : badsites[i].got = "nil" THEN "failed_load_leaves_state"
    \* F-C02-1 is repaired (9986135, d78e043, 326f29b): UnvisitedSite no longer names a class
    ELSE IF \A i \in DOMAIN badsites : Conflated(u, badsites[i]) THEN "raw_ref_string_conflation"
    ELSE IF \A i \in DOMAIN badsites : PureCycle(u, badsites[i]) THEN "pure_ref_cycle_left_unresolved"
